@@ -11,7 +11,10 @@ transforms:
   retvar     return E  ->  _ret = E; return _ret
   kworder    keyword arguments of every call in reverse order
   ifinvert   if c: A else: B  ->  if not c: B else: A   (plain if/else only)
-  combo      all six applied together
+  combo      the six above applied together
+  swapadj    adjacent independent call-free assignments swapped
+  dropelse   else after a branch that always returns / raises removed (its body follows the if)
+  addelse    the inverse: statements after such an if moved into an else
   rename     every purely local variable v of a function renamed v_r  (parameters, globals, closure variables untouched)
 """
 import ast, sys, os, json, copy, multiprocessing as mp
@@ -150,6 +153,95 @@ class Rename(ast.NodeTransformer):
         return c
 
 
+def _names_of(n, ctx=None):
+    return {x.id for x in ast.walk(n) if isinstance(x, ast.Name) and (ctx is None or isinstance(x.ctx, ctx))}
+
+
+def _has_call(n):
+    return any(isinstance(x, ast.Call) for x in ast.walk(n))
+
+
+class SwapAdj(ast.NodeTransformer):
+    """swap adjacent simple assignments `a = E1; b = E2` that do not depend on each other and contain no calls (so evaluation order is unobservable)"""
+
+    def _block(self, body):
+        out = list(body)
+        i = 0
+        while i + 1 < len(out):
+            a, b = out[i], out[i + 1]
+            if (isinstance(a, ast.Assign) and isinstance(b, ast.Assign) and all(isinstance(t, ast.Name) for t in a.targets + b.targets)
+                    and not _has_call(a) and not _has_call(b)):
+                ta, tb = _names_of(a, ast.Store), _names_of(b, ast.Store)
+                if not (ta & _names_of(b)) and not (tb & _names_of(a)):
+                    out[i], out[i + 1] = b, a
+                    i += 2
+                    continue
+            i += 1
+        return out
+
+    def generic_visit(self, node):
+        super().generic_visit(node)
+        for fld in ("body", "orelse", "finalbody"):
+            blk = getattr(node, fld, None)
+            if isinstance(blk, list) and blk and isinstance(blk[0], ast.stmt):
+                setattr(node, fld, self._block(blk))
+        return node
+
+
+def _terminates(body):
+    if not body:
+        return False
+    last = body[-1]
+    if isinstance(last, (ast.Return, ast.Raise, ast.Continue, ast.Break)):
+        return True
+    if isinstance(last, ast.If):
+        return _terminates(last.body) and _terminates(last.orelse)
+    return False
+
+
+class DropElse(ast.NodeTransformer):
+    """if c: ...return/raise  else: B   ->   if c: ...return/raise ; B"""
+
+    def _block(self, body):
+        out = []
+        for st in body:
+            if isinstance(st, ast.If) and st.orelse and _terminates(st.body):
+                rest = st.orelse
+                st.orelse = []
+                out.append(st)
+                out.extend(rest)
+            else:
+                out.append(st)
+        return out
+
+    def generic_visit(self, node):
+        super().generic_visit(node)
+        for fld in ("body", "orelse", "finalbody"):
+            blk = getattr(node, fld, None)
+            if isinstance(blk, list) and blk and isinstance(blk[0], ast.stmt):
+                setattr(node, fld, self._block(blk))
+        return node
+
+
+class AddElse(ast.NodeTransformer):
+    """if c: ...return/raise ; B   ->   if c: ...return/raise  else: B   (the rest of the block moves into the else)"""
+
+    def _block(self, body):
+        for i, st in enumerate(body):
+            if isinstance(st, ast.If) and not st.orelse and _terminates(st.body) and i + 1 < len(body):
+                st.orelse = self._block(body[i + 1:])
+                return body[:i + 1]
+        return body
+
+    def generic_visit(self, node):
+        super().generic_visit(node)
+        for fld in ("body", "orelse", "finalbody"):
+            blk = getattr(node, fld, None)
+            if isinstance(blk, list) and blk and isinstance(blk[0], ast.stmt):
+                setattr(node, fld, self._block(blk))
+        return node
+
+
 class Combo(ast.NodeTransformer):
     """all of the above, one after the other"""
 
@@ -160,7 +252,7 @@ class Combo(ast.NodeTransformer):
         return tree
 
 
-TRANSFORMS = {"flipcmp": FlipCmp, "commute": Commute, "retvar": RetVar, "kworder": KwOrder, "ifinvert": IfInvert, "rename": Rename, "combo": Combo}
+TRANSFORMS = {"flipcmp": FlipCmp, "commute": Commute, "retvar": RetVar, "kworder": KwOrder, "ifinvert": IfInvert, "rename": Rename, "combo": Combo, "swapadj": SwapAdj, "dropelse": DropElse, "addelse": AddElse}
 
 
 def transformed_sources(tname):
